@@ -15,6 +15,8 @@ use crate::{
 pub struct Reference<T> {
     value: Mutex<Value>,
     thread: GcPtr<Thread>,
+    /// Whether this reference was copied into the heap of the global state (as part of a module)
+    in_global_heap: bool,
     _marker: PhantomData<T>,
 }
 
@@ -33,6 +35,7 @@ where
             let data: Box<dyn Userdata> = Box::new(Reference {
                 value: Mutex::new(cloned_value),
                 thread: GcPtr::from_raw(deep_cloner.thread()),
+                in_global_heap: deep_cloner.gc().generation().is_root(),
                 _marker: PhantomData::<A>,
             });
             deep_cloner.gc().alloc(Move(data))
@@ -51,7 +54,10 @@ unsafe impl<T> Trace for Reference<T> {
 }
 
 fn set(r: &Reference<A>, a: Generic<A>) -> IO<()> {
-    match r.thread.deep_clone_value(&r.thread, a.get_value()) {
+    match r
+        .thread
+        .deep_clone_value_for_cell(r.in_global_heap, &r.thread, a.get_value())
+    {
         // SAFETY Rooted when stored in the reference
         Ok(a) => unsafe {
             *r.value.lock().unwrap() = a.get_value().clone_unrooted();
@@ -72,6 +78,7 @@ fn make_ref(a: WithVM<Generic<A>>) -> IO<Reference<A>> {
         IO::Value(Reference {
             value: Mutex::new(a.value.get_value().clone_unrooted()),
             thread: GcPtr::from_raw(a.vm),
+            in_global_heap: false,
             _marker: PhantomData,
         })
     }
@@ -102,7 +109,10 @@ pub mod st {
     use crate::api::RuntimeResult;
 
     fn set(r: &Reference<A>, a: Generic<A>) -> RuntimeResult<(), String> {
-        match r.thread.deep_clone_value(&r.thread, a.get_value()) {
+        match r
+            .thread
+            .deep_clone_value_for_cell(r.in_global_heap, &r.thread, a.get_value())
+        {
             // SAFETY Rooted when stored in the reference
             Ok(a) => unsafe {
                 *r.value.lock().unwrap() = a.get_value().clone_unrooted();
@@ -123,6 +133,7 @@ pub mod st {
             Reference {
                 value: Mutex::new(a.value.get_value().clone_unrooted()),
                 thread: GcPtr::from_raw(a.vm),
+                in_global_heap: false,
                 _marker: PhantomData,
             }
         }
